@@ -47,7 +47,7 @@ const char *vh_counter_name[VC_COUNT] = {
     [VC_RB_COAST_MANY] = "rollbacks_coast_many", [VC_RB_TO_ZERO] = "rollbacks_to_history_start", [VC_CAS_RETRY] = "queue_cas_retries",
     [VC_SWAP_NONEMPTY] = "queue_swaps_nonempty", [VC_FP_DELAYS] = "failpoint_delays", [VC_EXTRACT] = "extractions",
     [VC_MSG_ALLOC] = "message_allocs", [VC_MSG_FREE] = "message_frees", [VC_QUEUE_LEFT] = "messages_left_in_queues_at_shutdown",
-    [VC_VOTES] = "termination_votes", [VC_GVT_INITIATED] = "gvt_rounds_initiated", [VC_INSERT_BETWEEN_PEEKS] = "unused",
+    [VC_VOTES] = "termination_votes", [VC_GVT_INITIATED] = "gvt_rounds_initiated", [VC_INSERT_BETWEEN_PEEKS] = "reductions_with_in_hand_window_checked",
     [VC_FINI_COMMITTED] = "committed_at_shutdown_checked", [VC_MUTED_SENDS] = "sends_muted_in_silent_execution",
     [VC_ARENA_AFTER_CKPT] = "unused2", [VC_DEPTH_MAX] = "max_rollback_depth", [VC_COAST_MAX] = "max_coast_forward",
 };
@@ -145,6 +145,12 @@ struct thrmon {
 	unsigned ft_cap;
 	double fossil_gvt;
 	double vote_gvt;
+	/* messages taken in hand while this thread's contribution to the current reduction was still open:
+	 * from joining the reduction to the second (final) snapshot */
+	int red_open, red_csteps;
+	double red_min_ts;
+	uint64_t red_min_id;
+	unsigned red_min_flags;
 };
 static struct thrmon thr[VH_MAXTHR];
 static _Atomic uint64_t next_msg_id = 1;
@@ -318,8 +324,24 @@ void rs_verif_hook(unsigned point, const void *p, uint64_t a, uint64_t b)
 			_Atomic int *slot = a >= 16 ? &t->gvt_nphase : &t->gvt_tphase;
 			int v = (int)(a >= 16 ? a - 16 : a);
 			if(atomic_load_explicit(slot, memory_order_relaxed) != v) {
+				int was = atomic_load_explicit(slot, memory_order_relaxed);
 				atomic_store_explicit(slot, v, memory_order_relaxed);
 				PROGRESS();
+				if(a < 16) {
+					if(v == 1 && t->red_csteps != 1) { /* first phase of a NEW reduction (a reduction whose value is 0.0 is never handed out) */
+						t->red_open = 1;
+						t->red_csteps = 0;
+						t->red_min_ts = SIMTIME_MAX;
+					} else if(was == 3 && v == 4 && t->red_open && ++t->red_csteps == 2) {
+						t->red_open = 0; /* final snapshot taken */
+					}
+				}
+				if(a == 2 && vh_cfg.fp_level >= 2 && fp_next(t) % (vh_cfg.fp_level >= 3 ? 3 : 10) == 0) {
+					/* descheduled right after the first snapshot, for long enough that threads which have not joined the reduction yet finish
+					 * their batch, join and take their own snapshot: what they sent to this thread meanwhile is covered by nobody's snapshot */
+					t->c[VC_FP_DELAYS]++;
+					usleep(1200 + (unsigned)(fp_next(t) % 3000));
+				}
 			}
 			if(a == 2 && vh_cfg.fp_level >= 2 && fp_next(t) % (vh_cfg.fp_level >= 3 ? 40 : 200) == 0) {
 				/* a thread descheduled while it waits for the others to take their first snapshot: messages sent to it meanwhile by threads that
@@ -450,6 +472,11 @@ void rs_verif_hook(unsigned point, const void *p, uint64_t a, uint64_t b)
 				vh_violation("C06", "released-buffer-extracted", "message id %llu extracted after its release", (unsigned long long)m->verif_id);
 			if(m->dest_t < t->last_gvt)
 				vh_violation("C04", "extracted-below-gvt", "thread %u extracted message id %llu {t=%a,type=%u,flags=%x} after having been told GVT %a", rid, (unsigned long long)m->verif_id, m->dest_t, m->m_type, m->raw_flags, t->last_gvt);
+			if(t->red_open && m->dest_t < t->red_min_ts) {
+				t->red_min_ts = m->dest_t;
+				t->red_min_id = m->verif_id;
+				t->red_min_flags = m->raw_flags;
+			}
 			if(lid_to_nid(m->dest) != nid || lid_to_rid(m->dest) != rid)
 				vh_violation("C14", "message-extracted-by-non-owner", "message for LP %llu extracted on thread %u", (unsigned long long)m->dest, rid);
 			failpoint(vh_cfg.fp_level >= 3 ? 100 : vh_cfg.fp_level == 2 ? 1000 : 0, 3);
@@ -859,6 +886,13 @@ void rs_verif_hook(unsigned point, const void *p, uint64_t a, uint64_t b)
 			PROGRESS();
 			if(g < t->last_gvt)
 				vh_violation("C04", "gvt-decreased", "thread %u was told GVT %a after %a", rid, g, t->last_gvt);
+			if(t->red_csteps == 2 && t->red_min_ts < g)
+				vh_violation("C04", "gvt-above-message-in-hand-during-reduction", "thread %u was told GVT %a, but while that reduction was being computed (after it joined, before its final snapshot) it had extracted message id %llu {t=%a,flags=%x}: the value is not a lower bound of what existed when it was computed",
+				    rid, g, (unsigned long long)t->red_min_id, t->red_min_ts, t->red_min_flags);
+			t->red_open = 0;
+			t->red_csteps = 0;
+			t->red_min_ts = SIMTIME_MAX;
+			CNT(VC_INSERT_BETWEEN_PEEKS);
 			t->last_gvt = g;
 			if(!b)
 				t->last_loop_gvt = g;
